@@ -97,7 +97,7 @@ class Ctx(object):
 
     def exception_for(self, rid, instance):
         for e in self.exceptions:
-            if e["rule"] == rid and e["instance"] == instance:
+            if (e["rule"] == rid or (e["rule"].startswith("*.") and rid.endswith(e["rule"][1:]))) and e["instance"] == instance:
                 return e["reason"]
         return None
 
